@@ -191,6 +191,10 @@ def enc_features(prop, monitor, pfx):
     known(pfx + "-MPVAL", prop, monitor, E, r"(token:o->[as]|marshaler-output-differs)", r".* @ feature:(marshalerP-by-value|tags-zoo)",
           '[3]MP{...} (pointer-receiver MarshalJSON, unaddressable elements): go-json calls the method, encoding/json encodes the struct', "internal/encoder/compiler.go: pointer-receiver marshalers are used on values that encoding/json treats as unaddressable",
           "other o->a / o->s token differences on by-value pointer-receiver marshalers", "addressability is not tracked by the opcode compiler")
+    known(pfx + "-MPNIL", prop, r"(%s|process)" % monitor, E, r"(panic:nil-deref|fatal:out-of-memory|fatal:segv|token:z->o)", r"(/internal/encoder\.AppendMarshal(JSON|Text)(Indent)?|ptr\d>struct|struct) @ feature:marshalerP-by-value",
+          'Marshal((*struct{Y MP})(nil)) where MP has a pointer-receiver MarshalJSON panics (nil pointer dereference in reflect.Value.Set from AppendMarshalJSON); with MarshalText it reads a garbage length (fatal out of memory); through **T it prints the zero struct instead of null',
+          "internal/encoder/vm*/vm.go OpStructHead(OmitEmpty)Marshal(JSON|Text): for a nil struct pointer that is not flagged indirect the nil test is skipped and the marshaler is called on address 0 (16 opcode bodies in the four interpreters)",
+          "other crashes in AppendMarshalJSON/Text on types whose first member is a by-value pointer-receiver marshaler", "the nil test would have to be changed in 16 generated opcode bodies; not a small patch")
     known(pfx + "-NILMV", prop, monitor, E, r"(token:o->z|panic:nil-deref)", r".* @ feature:nilable-marshalerV",
           'nil MVM (map kind, value-receiver MarshalJSON) -> null instead of calling the method', "internal/encoder/vm: nil check precedes the marshaler call for map/slice kinds", "same symptom on nilable value-receiver marshalers", "behavioural difference kept upstream")
     known(pfx + "-OMITM", prop, monitor, E, r"extra-member", r"field\[omitempty.*\]:(text)?marshaler.* @ feature:(omitempty-marshaler|tags-zoo)",
@@ -290,6 +294,9 @@ feature_entries("C04", "roundtrip", "KF-C04", RT, ["ptr2\\+", "array1-ptr-shaped
 # ------------------------------------------------------------------ C08
 SAFE = r"(panic:.+|fatal:.+|checkptr:.+|asan:.+|excessive-allocation|slot-clobber:.+)"
 feature_entries("C08", "(enc-safety|slot-owner)", "KF-C08", SAFE, ["ptr2\\+", "array1-ptr-shaped-elem", "struct-ptr-shaped", "mapkey-marshaler", "nilable-marshalerV", "ptr-to-marshaler", "embedded-structof", "tags-zoo"])
+
+known("KF-C08-MPNIL", "C08", r"(enc-safety|process)", None, r"(panic:nil-deref|fatal:out-of-memory|fatal:segv)", r"/internal/encoder\.AppendMarshal(JSON|Text)(Indent)? @ feature:marshalerP-by-value",
+      'Marshal((*struct{Y MP})(nil)) panics; see KF-C01-MPNIL', "see KF-C01-MPNIL", "see KF-C01-MPNIL", "see KF-C01-MPNIL")
 
 # ------------------------------------------------------------------ C16
 known("KF-C16-01", "C16", "int-decode", None, r"accepts:bare-minus", r"int(8|16|32|64)?:(plain|pointer|map-key|string-tag|stream)",
